@@ -8,7 +8,7 @@ from ..workloads import text as WT
 
 MANIFEST = dict(
     technique='runtime monitor on ExpressionParser.parse vs independent reference recogniser + exact rational evaluator; grammar-directed and mutated text workload',
-    text='Every parse() of a generated/corpus/mutated string is decided against a reference parser written from the documented grammar: same acceptance, same operand multiset, same literal types, same exact value at >= 10 assignments. Held on the strings observed (all grammar productions are required arms).',
+    text='Every parse() of a generated/corpus/mutated string (on a fresh parser, and for a sample also on one shared parser together with padding variants of the same string) is decided against a reference parser written from the documented grammar: same acceptance, same operand multiset, same literal types, same exact value at >= 10 assignments. Held on the strings observed (all grammar productions are required arms).',
     note='Trusts the reference grammar reading in DESIGN.md Appendix A, fractions.Fraction arithmetic and sampling of assignments.',
     ref='DESIGN.md 3/C03',
 )
